@@ -99,7 +99,7 @@ def _load():
     register(Profile("C05", [C05], [(2, srv), (1, profile(ordinary_only=True, sched=0.5, prio=0.8, preempt=0.7, renege=0.5, cct=0.3, n=[1, 2, 3]))],
                      "distinct history digest; non-trivial = >=1 customer waited and later started service",
                      B(40000, 400000)))
-    cap = profile(qcap=0.9, qcap_vals=[INF, 0, 0, 1, 2, 3], syscap=0.4, batch=0.5, baulk=0.4, jockey=0.0, n=[1, 2, 2, 3], **NOREROUTE)
+    cap = profile(qcap=0.9, qcap_vals=[INF, 0, 0, 1, 2, 3], syscap=0.4, batch=0.5, baulk=0.4, renege=0.3, jockey=0.5, n=[1, 2, 2, 3], **NOREROUTE)
     register(Profile("C06", [C06], [(1, cap)],
                      "distinct history digest; non-trivial = >=1 rejection and >=1 admission into a node holding capacity-1",
                      B(40000, 400000)))
